@@ -283,6 +283,14 @@ func runCheck(id string, opts checkOpts) *checkResult {
 		all = append(all, o)
 	}
 	discharge(all, runDir, opts.timeoutS, 16, opts.tier == "thorough")
+	finalizeDryRun(all)
+	if os.Getenv("VERIF_SLOW") != "" {
+		for _, o := range all {
+			if o.Seconds > 2 {
+				fmt.Fprintf(os.Stderr, "SLOW %.1fs %s %s %s\n", o.Seconds, o.Status, o.Solver, o.Name())
+			}
+		}
+	}
 	res.obls = all
 
 	// baseline
@@ -299,6 +307,9 @@ func runCheck(id string, opts checkOpts) *checkResult {
 	for _, o := range all {
 		if o.Cover && strings.HasPrefix(o.Label, "return#") {
 			coverNow[o.Name()] = o.Status
+			continue
+		}
+		if o.Kind == "aux" {
 			continue
 		}
 		present[stableName(o.Name())] = true
@@ -600,6 +611,16 @@ func writeEvidence(id string, cfg *PropConfig, opts checkOpts, res *checkResult,
 			disProof++
 		}
 	}
+	// panic sites accepted because the governance submission dry-run covers them (C15 tier ii): listed, not counted as proved
+	var dryRunCovered []string
+	for _, o := range all {
+		if o.Covered != "" && o.Status == "sat" {
+			dryRunCovered = append(dryRunCovered, stableName(o.Name())+" — "+o.Covered)
+			disProof--
+			nProof--
+		}
+	}
+	sort.Strings(dryRunCovered)
 	var boundedDetails []map[string]string
 	for _, o := range all {
 		if o.Kind == "bounded" {
@@ -638,12 +659,13 @@ func writeEvidence(id string, cfg *PropConfig, opts checkOpts, res *checkResult,
 			"engine_notes":             noteList,
 			"undecided":                res.undecided,
 			"known_findings":           res.knownLines,
-			"samples":                  samples,
-			"load_s":                   round3(prog.LoadS),
-			"explanation":              "contract-based deductive verification: obligations generated by symbolic execution of the go/ssa form of the functions under contract in /repo (built on this run), discharged by SMT solvers (unsat of the negated obligation)",
-			"evaluations":              len(all),
-			"distinct_nontrivial":      distinctNontrivial(all),
-			"rule":                     "one evaluation per generated obligation; non-trivial = needed a solver call (goal not syntactically true); distinct by obligation name + path condition",
+			"panic_sites_covered_by_submission_dry_run": dryRunCovered,
+			"samples":             samples,
+			"load_s":              round3(prog.LoadS),
+			"explanation":         "contract-based deductive verification: obligations generated by symbolic execution of the go/ssa form of the functions under contract in /repo (built on this run), discharged by SMT solvers (unsat of the negated obligation)",
+			"evaluations":         len(all),
+			"distinct_nontrivial": distinctNontrivial(all),
+			"rule":                "one evaluation per generated obligation; non-trivial = needed a solver call (goal not syntactically true); distinct by obligation name + path condition",
 		},
 	}
 	data, _ := json.MarshalIndent(ev, "", " ")
